@@ -53,5 +53,17 @@ MANIFEST_TEXT.update({
     },
 })
 
+MANIFEST_TEXT.update({
+    "C11": {
+        "level": "Bounded model checking: an inductive step (one fully symbolic operation from every enumerated state shape, "
+                 "post-state checked against an array model and freed under the size-matched dealloc model) plus all short "
+                 "operation-kind sequences with symbolic arguments; out-of-range insert/remove decided for every index. Right "
+                 "level because CVec bugs live at exact-capacity / index == len / reallocation-then-shift corners.",
+        "note": "Heap shapes are enumerated (CBMC cannot take a symbolic-length heap vector across two symbolic steps: 65 GB); "
+                "len > 4 and allocation failure are outside.",
+        "technique": BMC + "; inductive step over enumerated state shapes, differential against an array model",
+    },
+})
+
 NOT_YET = {k: "check under construction at this commit (planned in DESIGN.md section 5); not claimed yet" for k in
-           ["C01", "C02", "C04", "C05", "C06", "C07", "C08", "C09", "C11", "C16", "C17", "C20"]}
+           ["C01", "C02", "C04", "C05", "C06", "C07", "C08", "C09", "C16", "C17", "C20"]}
